@@ -733,6 +733,9 @@ class Translator:
                 if c is not None:
                     return self.let(self.v(d), f"Py.set2 {c[0]} {c[1]} {c[2]} {self.g_stored(s.value, env, c[3])}") + k(dict(env))
             return None
+        if isinstance(tg, ast.Attribute) and isinstance(s.value, ast.Name) and (env.get(s.value.id) or ("",))[0] == "R" \
+                and env[s.value.id][1] in self.fn.ref_key:
+            return None     # a stored reference to a record object named by its `ref_key` field: s_Assign's cells case
         if isinstance(tg, ast.Attribute) and _dotted(tg) in self.fn.state and _dotted(tg) in env and env[_dotted(tg)][0] == "O":
             d = _dotted(tg)
             env = {x: y for x, y in env.items() if x != "#narrow:" + d}
